@@ -209,6 +209,16 @@ class ExprMixin(CallMixin):
         v = join(a[1], b[1])
         if c.taint and v.kind <= (INTLIKE | frozenset(["str", "none"])):
             v = v.with_taint(True)
+        if c.taint and fr.fi is not None and fr.base:
+            from .absint import _wireish
+            if _wireish(a[1]) or _wireish(b[1]):
+                nm = "<conditional expression at line %d>" % n.lineno
+                fr.conds.append((n.test, True, True))
+                self.record_wire_choice(fr, "assign", nm, n.body, n.body)
+                fr.conds.pop()
+                fr.conds.append((n.test, False, True))
+                self.record_wire_choice(fr, "assign", nm, n.orelse, n.orelse)
+                fr.conds.pop()
         return concat(t, alt(tag, c.taint, a[0], b[0])), v
 
     def ex_BoolOp(self, n, fr):
